@@ -4,6 +4,7 @@ import (
 	"fmt"
 	"math"
 	"strings"
+	"unicode/utf8"
 
 	"pgregory.net/rapid"
 	"verif/internal/gripx"
@@ -49,7 +50,13 @@ func hostile(rt *rapid.T, lbl string, existing []string, invalid bool) []byte {
 	case 3: // proper prefix of an existing string
 		e := ex(lbl)
 		if len(e) > 1 {
-			return []byte(e[:len(e)-1])
+			cut := 1
+			if !invalid {
+				_, cut = utf8.DecodeLastRuneInString(e) // whole characters only
+			}
+			if cut < len(e) {
+				return []byte(e[:len(e)-cut])
+			}
 		}
 		return []byte(e + "x")
 	case 4: // existing + fragment
@@ -211,7 +218,7 @@ func genCase(rt *rapid.T, level string) Case {
 	for wi := 0; wi < nw; wi++ {
 		lbl := fmt.Sprintf("w%d", wi)
 		var w Write
-		kind := rapid.IntRange(0, 9).Draw(rt, lbl+".kind")
+		kind := rapid.IntRange(0, 10).Draw(rt, lbl+".kind")
 		// which graph is written
 		target := c.GA
 		if wi > 0 && c.Writes[0].Kind == "addGraph" && rapid.Bool().Draw(rt, lbl+".intoNew") {
@@ -225,6 +232,46 @@ func genCase(rt *rapid.T, level string) Case {
 		}
 		w.Graph = []byte(target)
 		switch {
+		case wi > 0 && c.Writes[0].Kind == "addIndex" && string(w.Graph) == string(c.Writes[0].Graph) && rapid.IntRange(0, 3).Draw(rt, lbl+".underIndex") > 0:
+			// a vertex of the indexed label with a hostile value under the indexed field
+			ix := c.Writes[0].Elems[0]
+			var v interface{}
+			switch rapid.IntRange(0, 5).Draw(rt, lbl+".ixval") {
+			case 0:
+				v = rapid.Bool().Draw(rt, lbl+".ixbool")
+			case 1:
+				v = "s"
+			case 2:
+				v = rapid.SampledFrom(specialNumbers).Draw(rt, lbl+".ixnum")
+			case 3:
+				v = nil
+			default:
+				v = genValue(rt, lbl+".ixv", 2)
+			}
+			// nested field a.b -> {a: {b: v}}
+			parts := strings.Split(string(ix.ID), ".")
+			for i := len(parts) - 1; i > 0; i-- {
+				v = map[string]interface{}{parts[i]: v}
+			}
+			id := rapid.SampledFrom([]string{"v1", "nv"}).Draw(rt, lbl+".ixid")
+			w.Kind = rapid.SampledFrom([]string{"addVertex", "addVertex", "bulkAdd"}).Draw(rt, lbl+".ixkind")
+			w.Hostile = []string{"value"}
+			if features("label", ix.Label)[0] != "plain" {
+				w.Hostile = append(w.Hostile, "label")
+			}
+			w.Elems = []Elem{{ID: []byte(id), Label: ix.Label, Data: map[string]interface{}{parts[0]: v}}}
+		case kind == 10:
+			// a property index; the field carries a suffix unique to the case (the index
+			// listing of a shared store is not isolated per graph)
+			w.Kind = "addIndex"
+			label := rapid.SampledFrom([]string{"A", "A", "B", "A.k", "label", "A\x00B", "v", "\u00e9", "A B", "v.label"}).Draw(rt, lbl+".ixlabel")
+			field := rapid.SampledFrom([]string{"k", "k", "a.b", "p", "label", "k\x00x"}).Draw(rt, lbl+".ixfield") + c.GA
+			for _, pair := range [][2]string{{"index-label", label}, {"index-field", field}} {
+				if fs := features(pair[0], []byte(pair[1])); fs[0] != "plain" {
+					w.Hostile = append(w.Hostile, pair[0])
+				}
+			}
+			w.Elems = []Elem{{Label: []byte(label), ID: []byte(field)}}
 		case kind <= 1:
 			w.Kind = "addGraph"
 			w.Hostile = []string{"graph"}
@@ -308,6 +355,26 @@ func genCase(rt *rapid.T, level string) Case {
 				w.Kind = "addVertex"
 			}
 			w.Elems = append(w.Elems, e)
+			// a default taken from an earlier hostile write is hostile too
+			idComp := "vertex-id"
+			if edge {
+				idComp = "edge-id"
+			}
+			for _, cv := range []struct {
+				comp string
+				val  []byte
+			}{{idComp, e.ID}, {"label", e.Label}, {"from", e.From}, {"to", e.To}} {
+				if (cv.comp == "from" || cv.comp == "to") && !edge {
+					continue
+				}
+				listed := false
+				for _, h := range w.Hostile {
+					listed = listed || h == cv.comp
+				}
+				if !listed && features(cv.comp, cv.val)[0] != "plain" {
+					w.Hostile = append(w.Hostile, cv.comp)
+				}
+			}
 			// later writes may relate to the strings of this one
 			if edge {
 				eids = append(eids, string(e.ID))
